@@ -66,19 +66,31 @@ func (c *capClient) NewStreamDialer() (netio.StreamDialer, netio.StreamDialerInf
 
 var psk = []byte("0123456789abcdef")
 
+var (
+	cachedUCC *ss2022.UserCipherConfig
+	cachedCCC *ss2022.ClientCipherConfig
+)
+
 func newServer() *ss2022.StreamServer {
-	ucc, err := ss2022.NewUserCipherConfig(psk, false)
-	if err != nil {
-		harness.Fatal("%v", err)
+	if cachedUCC == nil {
+		ucc, err := ss2022.NewUserCipherConfig(psk, false)
+		if err != nil {
+			harness.Fatal("%v", err)
+		}
+		cachedUCC = &ucc
 	}
-	return (&ss2022.StreamServerConfig{UserCipherConfig: ucc}).NewStreamServer()
+	return (&ss2022.StreamServerConfig{UserCipherConfig: *cachedUCC}).NewStreamServer()
 }
 
 func newRequest() []byte {
-	ccc, err := ss2022.NewClientCipherConfig(psk, nil, false)
-	if err != nil {
-		harness.Fatal("%v", err)
+	if cachedCCC == nil {
+		c, err := ss2022.NewClientCipherConfig(psk, nil, false)
+		if err != nil {
+			harness.Fatal("%v", err)
+		}
+		cachedCCC = c
 	}
+	ccc := cachedCCC
 	cc := &capClient{}
 	cl := (&ss2022.StreamClientConfig{Name: "c", InnerClient: cc, Addr: conn.AddrFromIPPort(netipAddrPort()), CipherConfig: ccc}).NewStreamClient()
 	if _, err := cl.DialStream(context.Background(), conn.AddrFromIPPort(netipAddrPort()), []byte("hi")); err != nil {
@@ -98,25 +110,57 @@ var advs = []time.Duration{1, time.Second - 1, time.Second, 29 * time.Second, 30
 var skews = []int{-31, -30, -29, 0, 29, 30, 31}
 
 type action struct {
-	kind string // adv new replay altered alteredFresh
-	arg  int
+	Kind string `json:"kind"` // adv new replay altered alteredFresh
+	Arg  int    `json:"arg"`
 }
 
 func (a action) String() string {
-	switch a.kind {
+	switch a.Kind {
 	case "adv":
-		return "Adv(" + advs[a.arg].String() + ")"
+		return "Adv(" + advs[a.Arg].String() + ")"
 	case "new":
-		return fmt.Sprintf("New(skew%+ds)", skews[a.arg])
+		return fmt.Sprintf("New(skew%+ds)", skews[a.Arg])
 	case "alteredFresh":
-		return fmt.Sprintf("AlteredThenKeep(skew%+ds)", skews[a.arg])
+		return fmt.Sprintf("AlteredThenKeep(skew%+ds)", skews[a.Arg])
 	case "replay":
-		return fmt.Sprintf("Present(r[-%d])", a.arg+1)
+		return fmt.Sprintf("Present(r[-%d])", a.Arg+1)
 	}
-	return fmt.Sprintf("Altered(r[-%d])", a.arg+1)
+	return fmt.Sprintf("Altered(r[-%d])", a.Arg+1)
 }
 
+// narrowAlphabet is a small boundary alphabet for deeper histories: client
+// clock at the edge of the window and in the middle, advances that straddle
+// the 60 s retention, replays of the last three requests.
+func narrowAlphabet() []action {
+	idx := func(d time.Duration) int {
+		for i, x := range advs {
+			if x == d {
+				return i
+			}
+		}
+		panic("adv")
+	}
+	sk := func(v int) int {
+		for i, x := range skews {
+			if x == v {
+				return i
+			}
+		}
+		panic("skew")
+	}
+	return []action{
+		{"new", sk(30)}, {"new", sk(0)},
+		{"adv", idx(1)}, {"adv", idx(60*time.Second - 1)}, {"adv", idx(60 * time.Second)},
+		{"replay", 0}, {"replay", 1}, {"replay", 2},
+	}
+}
+
+var useNarrow bool
+
 func alphabet() []action {
+	if useNarrow {
+		return narrowAlphabet()
+	}
 	var out []action
 	for i := range advs {
 		out = append(out, action{"adv", i})
@@ -192,17 +236,17 @@ func runHistory(phase int64, hist []action) (res *histResult, transitions int) {
 		return nil
 	}
 	for i, a := range hist {
-		switch a.kind {
+		switch a.Kind {
 		case "adv":
-			vsched.Advance(advs[a.arg])
+			vsched.Advance(advs[a.Arg])
 		case "new":
-			r := mk(skews[a.arg])
+			r := mk(skews[a.Arg])
 			reqs = append(reqs, r)
 			if res := doPresent(i, r); res != nil {
 				return res, transitions
 			}
 		case "alteredFresh":
-			r := mk(skews[a.arg])
+			r := mk(skews[a.Arg])
 			alt := append([]byte(nil), r.bytes...)
 			alt[len(psk)+3] ^= 0x01 // inside the sealed fixed-length header
 			transitions++
@@ -211,11 +255,11 @@ func runHistory(phase int64, hist []action) (res *histResult, transitions int) {
 			}
 			reqs = append(reqs, r)
 		case "replay", "altered":
-			if len(reqs) <= a.arg {
+			if len(reqs) <= a.Arg {
 				continue
 			}
-			r := reqs[len(reqs)-1-a.arg]
-			if a.kind == "altered" {
+			r := reqs[len(reqs)-1-a.Arg]
+			if a.Kind == "altered" {
 				alt := append([]byte(nil), r.bytes...)
 				alt[len(psk)+3] ^= 0x01
 				transitions++
@@ -251,9 +295,10 @@ func runShard(depth, shard, n int) *shardOut {
 	out := &shardOut{Viol: map[string]histViol{}}
 	al := alphabet()
 	hist := make([]action, 0, depth)
+	firstIdx := 0
 	var rec func(phase int64)
 	rec = func(phase int64) {
-		if len(hist) > 0 {
+		if len(hist) > 1 || (len(hist) == 1 && shard == 0) {
 			// skip histories that are no-ops at the end (replay of nothing is skipped inside runHistory; still counted once)
 			res, tr := runHistory(phase, hist)
 			out.Histories++
@@ -276,11 +321,14 @@ func runShard(depth, shard, n int) *shardOut {
 			return
 		}
 		for i, a := range al {
-			if len(hist) == 0 && i%n != shard {
+			if len(hist) == 1 && (firstIdx*len(al)+i)%n != shard {
 				continue
 			}
+			if len(hist) == 0 {
+				firstIdx = i
+			}
 			// prune: an action on a request that does not exist yet is a no-op
-			if (a.kind == "replay" || a.kind == "altered") && countReqs(hist) <= a.arg {
+			if (a.Kind == "replay" || a.Kind == "altered") && countReqs(hist) <= a.Arg {
 				out.Pruned++
 				continue
 			}
@@ -291,6 +339,9 @@ func runShard(depth, shard, n int) *shardOut {
 		}
 	}
 	for _, ph := range phases {
+		if useNarrow && os.Getenv("C03_TIER") != "thorough" && ph != 500_000_000 {
+			continue // quick: the narrow-deep pass runs from one mid-second phase
+		}
 		rec(ph)
 	}
 	return out
@@ -299,7 +350,7 @@ func runShard(depth, shard, n int) *shardOut {
 func countReqs(h []action) int {
 	n := 0
 	for _, a := range h {
-		if a.kind == "new" || a.kind == "alteredFresh" {
+		if a.Kind == "new" || a.Kind == "alteredFresh" {
 			n++
 		}
 	}
@@ -374,6 +425,10 @@ func main() {
 	shardFlag := os.Getenv("C03_SHARD")
 	if shardFlag != "" {
 		var depth, i, n int
+		if strings.HasPrefix(shardFlag, "narrow:") {
+			useNarrow = true
+			shardFlag = strings.TrimPrefix(shardFlag, "narrow:")
+		}
 		fmt.Sscanf(shardFlag, "%d:%d/%d", &depth, &i, &n)
 		out := runShard(depth, i, n)
 		json.NewEncoder(os.Stdout).Encode(out)
@@ -405,48 +460,57 @@ func main() {
 	}
 	c.Rule = "history part: one case = one history over {Adv(d) for 11 boundary durations, New(skew) for 7 client skews, Present(r[-1]), Present(r[-2]), Altered(r[-1]), AlteredThenKeep(skew)} from 3 server clock phases, every step a real HandleStream call on a fresh server per history; all histories to the stated depth (histories that extend a violating prefix are not run). schedule part: one case = one interleaving of k HandleStream calls on the same bytes (+ one different fresh request)."
 	c.Assumptions = []string{"time.Now in package ss2022 is the virtual clock (overlay)", "crypto/rand is a reproducible counter stream; padding length fixed to its minimum (irrelevant to the salt pool)", "single-user server, aes-128; the salt pool and timestamp rule do not depend on cipher or EIH"}
-	depth := harness.Pick(c, 4, 5)
 	n := harness.Workers()
-	outs := make([]*shardOut, n)
-	var wg sync.WaitGroup
-	for i := 0; i < n; i++ {
-		wg.Add(1)
-		go func(i int) {
-			defer wg.Done()
-			cmd := exec.Command(os.Args[0])
-			cmd.Env = append(os.Environ(), fmt.Sprintf("C03_SHARD=%d:%d/%d", depth, i, n))
-			cmd.Stderr = os.Stderr
-			b, err := cmd.Output()
-			if err != nil {
-				harness.Fatal("history shard %d failed: %v", i, err)
+	type pass struct {
+		name  string
+		depth int
+	}
+	passes := []pass{{"wide", harness.Pick(c, 4, 5)}, {"narrow", harness.Pick(c, 7, 8)}}
+	for _, ps := range passes {
+		outs := make([]*shardOut, n)
+		var wg sync.WaitGroup
+		for i := 0; i < n; i++ {
+			wg.Add(1)
+			go func(i int) {
+				defer wg.Done()
+				cmd := exec.Command(os.Args[0])
+				pre := ""
+				if ps.name == "narrow" {
+					pre = "narrow:"
+				}
+				cmd.Env = append(os.Environ(), fmt.Sprintf("C03_SHARD=%s%d:%d/%d", pre, ps.depth, i, n), "C03_TIER="+c.Tier)
+				cmd.Stderr = os.Stderr
+				b, err := cmd.Output()
+				if err != nil {
+					harness.Fatal("history shard %d failed: %v", i, err)
+				}
+				var o shardOut
+				if err := json.Unmarshal(b, &o); err != nil {
+					harness.Fatal("history shard %d: %v", i, err)
+				}
+				outs[i] = &o
+			}(i)
+		}
+		wg.Wait()
+		var hist, trans int64
+		for _, o := range outs {
+			hist += o.Histories
+			trans += o.Transitions
+			for sig, v := range o.Viol {
+				c.Violation(sig, v.What, map[string]any{"kind": "history", "narrow": ps.name == "narrow", "history": v})
 			}
-			var o shardOut
-			if err := json.Unmarshal(b, &o); err != nil {
-				harness.Fatal("history shard %d: %v", i, err)
+			for _, s := range o.Sample {
+				c.Sample(map[string]any{"history": s, "pass": ps.name})
 			}
-			outs[i] = &o
-		}(i)
-	}
-	wg.Wait()
-	var hist, trans int64
-	for _, o := range outs {
-		hist += o.Histories
-		trans += o.Transitions
-		for sig, v := range o.Viol {
-			c.Violation(sig, v.What, map[string]any{"kind": "history", "history": v})
 		}
-		for _, s := range o.Sample {
-			c.Sample(map[string]any{"history": s})
+		c.Count(hist, hist, trans)
+		for i := int64(0); i < hist && i < 1_000_000; i++ {
+			c.Distinct(fmt.Sprint(ps.name, i), true)
 		}
+		useNarrow = ps.name == "narrow"
+		c.Part("histories-"+ps.name, map[string]any{"depth": ps.depth, "alphabet_size": len(alphabet()), "alphabet": fmt.Sprint(alphabet()), "phases": phases, "histories": hist, "handshakes_presented": trans})
+		useNarrow = false
 	}
-	c.Count(hist, hist, trans)
-	for i := int64(0); i < hist; i++ {
-		// histories are distinct by construction (enumeration without repetition)
-		if i < 1_500_000 {
-			c.Distinct(fmt.Sprint("h", i), true)
-		}
-	}
-	c.Part("histories", map[string]any{"depth": depth, "alphabet_size": len(alphabet()), "phases": phases, "histories": hist, "handshakes_presented": trans})
 	c.Sample(map[string]any{"history": "phase=.500000000 New(skew+30s) Adv(1m0s) New(skew+0s) Present(r[-2])", "meaning": "accept with client 30 s ahead, wait 60 s, a fresh handshake prunes the pool, replay the first"})
 	// concurrent part
 	params := []string{"2", "3", "2+fresh"}
